@@ -99,6 +99,16 @@ func scenarios(tier string) []vlib.Scenario {
 			add(params{Streams: "none", Pending: pe, Failure: "none", Order: "conn-only", P: pp})
 		}
 	}
+	// the peer reads slowly (back pressure on the client's writes) at the moment of the close: a call, a metadata request
+	// or a downstream acknowledgement whose write is already under way must fail or precede the Disconnect
+	for _, pe := range []string{"heldcall", "heldmeta"} {
+		for pp := 0; pp <= 2; pp++ {
+			add(params{Streams: "none", Pending: pe, Failure: "none", Order: "conn-only", P: pp})
+		}
+	}
+	for pp := 0; pp <= 2; pp++ {
+		add(params{Streams: "down", Pending: "heldack", Failure: "none", Order: "conn-only", P: pp})
+	}
 	// Close arrives exactly while a redial is succeeding (the broker has just answered the connect request of the new incarnation)
 	for _, st := range []string{"none", "up"} {
 		for pp := 0; pp <= 2; pp++ {
@@ -130,6 +140,14 @@ func config(sc vlib.Scenario, tier string) vsched.Config {
 		if strings.HasPrefix(p.Pending, "race") && p.P >= 3 {
 			// three deviations are affordable only around the write itself
 			for _, s := range []string{"boundedWrite", "sendRequest.func", "iscp.(*Conn).close", "h:write:client"} {
+				if strings.Contains(site, s) {
+					return true
+				}
+			}
+			return false
+		}
+		if strings.HasPrefix(p.Pending, "held") {
+			for _, s := range []string{"boundedWrite", "sendRequest", "h:write", "h:close:client", "iscp.(*Conn).close", "wire.(*ClientConn).Close", "flushAck", "SendDownstreamDataPointsAck", "SendDisconnect"} {
 				if strings.Contains(site, s) {
 					return true
 				}
@@ -383,6 +401,20 @@ func (w *world) main() {
 			w.B.Send(c, &message.DownstreamCall{CallID: fmt.Sprintf("q-%d", i), SourceNodeID: "peer", Name: "n", Type: "t"})
 			w.B.Send(c, &message.DownstreamCall{CallID: fmt.Sprintf("qr-%d", i), RequestCallID: fmt.Sprintf("nobody-%d", i), SourceNodeID: "peer", Name: "n", Type: "t"})
 		}
+	case "heldack":
+		// one chunk consumed, its acknowledgement still waiting for the next flush
+		c := w.B.Live()
+		w.B.Send(c, &message.DownstreamChunk{
+			StreamIDAlias:   w.B.Downs[0].Alias,
+			UpstreamOrAlias: &message.UpstreamInfo{SessionID: "s", SourceNodeID: "src", StreamID: sim.StreamUUID('x', 1)},
+			StreamChunk: &message.StreamChunk{SequenceNumber: 1, DataPointGroups: []*message.DataPointGroup{
+				{DataIDOrAlias: &message.DataID{Name: "a", Type: "t"}, DataPoints: []*message.DataPoint{{ElapsedTime: 1, Payload: []byte("consumed")}}},
+			}},
+		})
+		if _, err := w.Downs[0].D.ReadDataPoints(sctx); err != nil {
+			w.Phase = "setup-failed"
+			return
+		}
 	case "queued":
 		c := w.B.Live()
 		for i := 0; i < 2; i++ {
@@ -409,6 +441,27 @@ func (w *world) main() {
 	}
 	w.Phase = "closing"
 	bg := vcontext.Background()
+	if strings.HasPrefix(w.p.Pending, "held") {
+		w.pendKind = ""
+		link := w.B.Live().Link
+		link.HoldClientWrites = true
+		if w.p.Pending != "heldack" {
+			vsched.Go("h:racer", func() {
+				rctx, rcancel := kit.Ctx(5 * time.Second)
+				defer rcancel()
+				if w.p.Pending == "heldcall" {
+					w.Conn.SendCall(rctx, &iscp.UpstreamCall{DestinationNodeID: "d", Name: "racer", Type: "t"})
+				} else {
+					w.Conn.SendMetadata(rctx, &message.BaseTime{SessionID: "s", Name: "racer"})
+				}
+			})
+			vsched.Quiesce() // its write is parked on the slow peer
+		}
+		vsched.Go("h:releaser", func() {
+			vsched.Quiesce() // the Disconnect is parked as well: the peer reads again
+			link.HoldClientWrites = false
+		})
+	}
 	if strings.HasPrefix(w.p.Pending, "race") {
 		w.pendKind = ""
 		vsched.Go("h:racer", func() {
@@ -570,6 +623,19 @@ func run(sc vlib.Scenario, cfg vsched.Config) (*vsched.Result, vlib.Verdict) {
 			case *message.Ping, *message.Pong:
 			default:
 				v.Fail("C10.after-disconnect", kit.MsgName(e.Msg)+fmt.Sprintf("/dev=%v", dev), "%s reached the broker after the Disconnect on incarnation %d", kit.MsgName(e.Msg), c.Idx)
+			}
+		}
+	}
+	// what the client still wrote after the broker had read the Disconnect and stopped reading
+	for _, c := range w.B.Conns {
+		if c.Disconnect == nil {
+			continue
+		}
+		for _, m := range c.UnreadFromClient() {
+			switch m.(type) {
+			case *message.Ping, *message.Pong:
+			default:
+				v.Fail("C10.after-disconnect", kit.MsgName(m)+fmt.Sprintf("/unread/dev=%v", dev), "%s was written on incarnation %d after the Disconnect the broker had already read", kit.MsgName(m), c.Idx)
 			}
 		}
 	}
